@@ -71,6 +71,26 @@ class TypeInfer:
         self._in_progress = set()
         self._class_fields: Dict[str, Dict[str, List[Tuple[FuncInfo, ast.AST]]]] = {}
         self._collect_fields()
+        # a private row follows its field when the field is renamed: the row is found through the documented view property
+        self.seeds, self.seed_alias = {}, {}
+        for (cq, f), t in SEED_CONTAINERS.items():
+            g = self._view_field(cq, f) if f.startswith('_') else None
+            self.seeds[(cq, g or f)] = t
+            self.seed_alias[(cq, g or f)] = (cq, f)
+
+    def _view_field(self, cq: str, f: str) -> Optional[str]:
+        """`g` when class `cq` no longer has the private field `f` but its property `f` without the underscore is `return self.g`."""
+        ci = self.prog.classes.get(cq)
+        if ci is None or f in self._class_fields.get(cq, {}):
+            return None
+        for m in getattr(ci, 'methods', {}).get(f.lstrip('_'), []):
+            if not m.is_property or not m.params:
+                continue
+            body = [s for s in m.node.body if not (isinstance(s, ast.Expr) and isinstance(s.value, ast.Constant))]
+            if len(body) == 1 and isinstance(body[0], ast.Return) and isinstance(body[0].value, ast.Attribute) \
+                    and isinstance(body[0].value.value, ast.Name) and body[0].value.value.id == m.params[0]:
+                return body[0].value.attr
+        return None
 
     # ------------------------------------------------------------------ fields
     def _self_name(self, fn: FuncInfo) -> Optional[str]:
@@ -156,8 +176,8 @@ class TypeInfer:
         self._field_type_cache[key] = None
         owner = self.field_owner(ci, name)
         res = None
-        if owner is not None and (owner.qualname, name) in SEED_CONTAINERS:
-            res = self._seed(SEED_CONTAINERS[(owner.qualname, name)])
+        if owner is not None and (owner.qualname, name) in self.seeds:
+            res = self._seed(self.seeds[(owner.qualname, name)])
         else:
             init = self.field_init(ci, name)
             if init is not None:
@@ -170,7 +190,7 @@ class TypeInfer:
         """Seed rows must still describe the tree: field exists and is initialised by a literal of that kind."""
         problems = []
         self.bad_seed_rows = []
-        for (cq, f), t in SEED_CONTAINERS.items():
+        for (cq, f), t in self.seeds.items():
             ci = self.prog.classes.get(cq)
             if ci is None:
                 problems.append(f"seed table row {cq}.{f}: class vanished")
